@@ -55,6 +55,19 @@ class Scen:
         self.events.append(dict(kind="I", k=k, t=t, bridges=list(bridges)))
         return k
 
+    def install_file(self, t, text, jlines):
+        """InstallBridgeListProfile of a bridge-list FILE given as text (the real line loader). jlines: the JSON-value
+        description of the lines (see bridge_file_cases). The list expected to be in force afterwards is computed from the
+        text (text_load); a file that does not load leaves the list in force before."""
+        k = self.ni; self.ni += 1
+        m = text_load(text)
+        br = sorted(m.items()) if m is not None else sorted(self.lists_from(t)[0].items())
+        self.events.append(dict(kind="I", k=k, t=t, bridges=br, raw=text, jlines=jlines, loads=m is not None))
+        return k
+
+    def hammer(self, t, workers, dur):
+        self.events.append(dict(kind="H", k=0, t=t, workers=workers, dur=dur))
+
     def lists_from(self, t):
         """the list current at time t and every list installed later"""
         cur = self.bridge_list()
@@ -86,8 +99,12 @@ class Scen:
                 ev.append("A%d:%s:%s@%s" % (e["k"], e["sid"], e["ans"], when))
             elif e["kind"] == "L":
                 ev.append("L%d:%d@%d" % (e["k"], e["dur"], e["t"]))
+            elif e["kind"] == "I" and "raw" in e:
+                ev.append("J%d:%s@%d" % (e["k"], e["raw"].encode().hex(), e["t"]))
             elif e["kind"] == "I":
                 ev.append("I%d:%s@%d" % (e["k"], ";".join("%s=%s" % b for b in e["bridges"]) or "-", e["t"]))
+            elif e["kind"] == "H":
+                ev.append("H%d:%d:%d@%d" % (e["k"], e["workers"], e["dur"], e["t"]))
         if self.watchdog:
             ev.append("W0:%d@0" % self.watchdog)
         if self.barrier:
@@ -111,8 +128,9 @@ class Tags:
     """strings <-> integer tags for the model"""
     def __init__(self):
         # tag 0 is the model's default_fp / default_url (Model/Broker.v): the defaulting itself is done by the model
-        self.m = {DEFAULT_FP: 0, DEFAULT_URL: 0}
-        self.r = {0: DEFAULT_URL}
+        # tag 1 is the empty string (Model/BrokerBridgeList.v EMPTY: the address of a record without webSocketAddress)
+        self.m = {DEFAULT_FP: 0, DEFAULT_URL: 0, "": 1}
+        self.r = {0: DEFAULT_URL, 1: ""}
 
     def __call__(self, s):
         if s not in self.m:
@@ -133,7 +151,7 @@ def derive_labels(sc, obs, tags):
     for e in sc.events:
         if e["kind"] == "A" and e["after"] is not None:
             continue
-        if e["kind"] == "L":
+        if e["kind"] in "LH":
             continue
         q.append((e["t"], 1, e))
     labels = []
@@ -173,7 +191,7 @@ def derive_labels(sc, obs, tags):
             entries.append(dict(k=e["k"], sid=e["sid"], state="wait", buf=None, cwait=False))
             names["P%d" % p] = "P%d" % e["k"]
             idmap[e["sid"]] = p
-            labels.append("P:%d:%s:%d:%d" % (tags(e["sid"]), NATS[e["nat"]], tags(e["ptype"]), e["clients"]))
+            labels.append("P:%d:%s:%d:%d" % (tags(e["sid"]), NATS[e["nat"]], tags(e["ptype"]), emb(e["clients"])))
             q.append((t + TMO, 0, dict(kind="WT", p=p)))
         elif e["kind"] == "WT":
             en = entries[e["p"]]
@@ -216,7 +234,7 @@ def derive_labels(sc, obs, tags):
                 en["cwait"] = False
                 idmap.pop(en["sid"], None)
         elif e["kind"] == "I":
-            labels.append(install_label(e["bridges"], tags))
+            labels.append(file_label(e["jlines"], tags) if "jlines" in e else install_label(e["bridges"], tags))
             bridges.clear(); bridges.update(dict(e["bridges"]))
         elif e["kind"] == "A":
             do_answer(t, e)
@@ -227,6 +245,244 @@ def derive_labels(sc, obs, tags):
 
 def install_label(bridges, tags):
     return "I:" + (";".join("%d=%d" % (tags(f), tags(u)) for f, u in bridges) or "-")
+
+
+def emb(clients):
+    """Go's signed 64-bit client count -> the model's N load (order embedding, Model/BrokerHeap.v emb)"""
+    return clients + 2 ** 63
+
+
+# ---------------------------------------------------------------- bridge-list files (C02: LoadBridgeInfo)
+# A file is generated together with its JSON-value description: per line None (the text of the line is not a JSON
+# object) or a list of members (key, valuekind, string): key n=displayName a=webSocketAddress f=fingerprint that is the
+# hex of 20 bytes, g=fingerprint that is not, u=a member the record type does not have; valuekind s=string z=null
+# o=another JSON type. The description is what the model (Model/BrokerBridgeList.v load) runs on.
+
+JKEYS = {"n": "displayName", "a": "webSocketAddress", "f": "fingerprint", "g": "fingerprint"}
+
+
+def jlines_model(jlines, tags):
+    out = []
+    for l in jlines:
+        if l is None:
+            out.append("x")
+        elif not l:
+            out.append("e")
+        else:
+            out.append(".".join(k + (("s%d" % tags(v.upper() if k == "f" else v)) if vk == "s" else vk) for k, vk, v in l))
+    return ";".join(out) or "-"
+
+
+def file_label(jlines, tags):
+    return "J:" + jlines_model(jlines, tags)
+
+
+def is_fp(sv):
+    return len(sv) == 40 and all(c in "0123456789abcdefABCDEF" for c in sv)
+
+
+def text_load(text):
+    """What the file configures, computed from the TEXT alone, every line on its own (Python's json): dict FP -> address,
+    or None when a line does not decode. Independent of the model and of the implementation."""
+    import json
+    m = {}
+    lines = text.split("\n")
+    if lines and lines[-1] == "":
+        lines.pop()
+    for ln in lines:
+        ln = ln.rstrip("\r")      # bufio.ScanLines drops a trailing CR
+        try:
+            val, _ = json.JSONDecoder(object_pairs_hook=lambda ps: ("obj", ps)).raw_decode(ln.lstrip(" \t\r\n"))
+        except ValueError:
+            return None
+        if val is None:
+            val = ("obj", [])
+        if not (isinstance(val, tuple) and len(val) == 2 and val[0] == "obj"):
+            return None
+        rec = {"displayName": "", "webSocketAddress": "", "fingerprint": ""}
+        for k, v in val[1]:
+            if k not in rec:
+                return None
+            if v is None:
+                continue
+            if not isinstance(v, str):
+                return None
+            rec[k] = v
+        if not is_fp(rec["fingerprint"]):
+            return None
+        m[rec["fingerprint"].upper()] = rec["webSocketAddress"]
+    return m
+
+
+def jlines_load(jlines):
+    """the same from the description (consistency of the generator: must agree with text_load of the rendered text)"""
+    m = {}
+    for l in jlines:
+        if l is None:
+            return None
+        rec = {"n": "", "a": "", "f": None}
+        for k, vk, v in l:
+            if k == "u" or vk == "o":
+                return None
+            if vk == "s":
+                rec["f" if k == "g" else k] = (v.upper(), k == "f") if k in "fg" else v
+        if rec["f"] is None or not rec["f"][1]:
+            return None
+        m[rec["f"][0]] = rec["a"]
+    return m
+
+
+def render_file(rng, jlines, junk):
+    import json
+    out = []
+    for n, l in enumerate(jlines):
+        if l is None:
+            out.append(junk[n])
+            continue
+        mem = []
+        for k, vk, v in l:
+            name = JKEYS.get(k, "webSocketAddres" if v == "" else "relay")
+            val = json.dumps(v) if vk == "s" else ("null" if vk == "z" else rng.choice(["7", "{}", "[\"x\"]", "true"]))
+            mem.append("%s%s:%s%s" % (json.dumps(name), rng.choice(["", " "]), rng.choice(["", " "]), val))
+        txt = rng.choice(["", " ", "\t"]) + "{" + rng.choice([",", ", "]).join(mem) + "}"
+        out.append(txt + junk.get(n, ""))
+    return "".join(x + "\n" for x in out)
+
+
+def bridge_file_cases(rng, tier):
+    """[(kind, text, jlines)]"""
+    cases = []
+    hexd = "0123456789ABCDEF"
+
+    def fp():
+        f = "".join(rng.choice(hexd) for _ in range(40))
+        return f.lower() if rng.random() < 0.25 else f
+
+    def url():
+        return "wss://%s.example/%s" % ("".join(rng.choice("abcdefgh") for _ in range(5)), rng.choice(["", "p", "a/b?c=1"]))
+
+    def full(f=None, u=None):
+        return [("n", "s", rng.choice(["b", "bridge one", ""])), ("a", "s", url() if u is None else u), ("f", "s", f or fp())]
+
+    def case(kind, jl, junk=None):
+        junk = junk or {}
+        for n, l in enumerate(jl):
+            if l is None and n not in junk:
+                junk[n] = rng.choice(["", "   ", "garbage", "[1,2]", "\"str\"", "{\"fingerprint\":\"AA", "7", "}{"])
+        text = render_file(rng, jl, junk)
+        if text_load(text) != jlines_load(jl):
+            raise RuntimeError("bridge file generator inconsistent: %r / %r" % (text, jl))
+        cases.append((kind, text, jl))
+
+    reps = 3 if tier == "quick" else 20
+    for _ in range(reps):
+        n = rng.randrange(1, 6)
+        case("bridge-file-plain", [full() for _ in range(n)])
+        # a record without (or with a null / empty) address, or without a name, after complete records
+        for how in ("absent", "null", "empty", "noname", "nullname"):
+            jl = [full() for _ in range(rng.randrange(1, 4))]
+            f = fp()
+            rec = {"absent": [("n", "s", "x"), ("f", "s", f)], "null": [("a", "z", ""), ("f", "s", f), ("n", "s", "y")],
+                   "empty": [("f", "s", f), ("a", "s", "")], "noname": [("f", "s", f), ("a", "s", url())],
+                   "nullname": [("n", "z", ""), ("a", "s", url()), ("f", "s", f)]}[how]
+            jl.insert(rng.randrange(1, len(jl) + 1), rec)
+            case("bridge-file-field-" + how, jl)
+        jl = [full() for _ in range(4)]
+        for l in jl:
+            rng.shuffle(l)
+        case("bridge-file-reordered-keys", jl)
+        # a fingerprint filed twice: the later record wins, with its own address (none when it has none)
+        f = fp()
+        jl = [full(f), full(), rng.choice([full(f.lower()), [("f", "s", f)], [("f", "s", f), ("a", "z", "")]])]
+        if rng.random() < 0.5:
+            jl.append(full())
+        case("bridge-file-duplicate-fingerprint", jl)
+        # a member twice in one object: the later one counts; null after a string leaves the string
+        f = fp()
+        case("bridge-file-duplicate-member", [full(), [("a", "s", url()), ("f", "s", fp()), ("a", "s", url()), ("f", "s", f)],
+                                                [("a", "s", url()), ("a", "z", ""), ("f", "s", fp())]])
+        # lines that do not decode: the whole load fails and the old list stays
+        jl = [full() for _ in range(rng.randrange(1, 4))]
+        jl.insert(rng.randrange(0, len(jl) + 1), None)
+        case("bridge-file-bad-line", jl)
+        jl = [full() for _ in range(2)]
+        jl.insert(rng.randrange(1, 3), rng.choice([[("n", "s", "x"), ("a", "s", url())],                  # no fingerprint
+                                                    [("f", "z", ""), ("a", "s", url())],                   # null fingerprint
+                                                    [("g", "s", rng.choice(["", "AB" * 19, "AB" * 21, "Z" * 40, "A" * 39])), ("a", "s", url())],
+                                                    [("f", "s", fp()), ("u", "s", rng.choice(["", "x"]))],   # unknown member
+                                                    [("f", "s", fp()), ("a", "o", "")],                   # address of another type
+                                                    [("f", "o", ""), ("a", "s", url())]]))
+        case("bridge-file-bad-record", jl)
+        # whatever follows the object on its line is not read
+        jl = [full() for _ in range(3)]
+        case("bridge-file-trailing-garbage", jl, {rng.randrange(0, 3): rng.choice([" garbage", "{\"fingerprint\":\"00\"}", "]", " \r", "\r"])})
+        # random mixtures
+        jl = []
+        fps = [fp() for _ in range(3)]
+        for _j in range(rng.randrange(0, 7)):
+            l = []
+            for k in rng.sample(["n", "a", "f"], rng.randrange(1, 4)):
+                vk = rng.choice(["s", "s", "s", "z"])
+                l.append((k, vk, (rng.choice(fps) if k == "f" else url() if k == "a" else "nm") if vk == "s" else ""))
+            if not any(k == "f" for k, _, _ in l) and rng.random() < 0.8:
+                l.append(("f", "s", rng.choice(fps)))
+            jl.append(l)
+        case("bridge-file-random", jl)
+    case("bridge-file-empty", [])
+    case("bridge-file-empty-object", [full(), []])
+    return cases
+
+
+def run_bridge_files(ctx, label="bridge-list-load"):
+    """C02: generated bridge-list FILES through the real LoadBridgeInfo and through Model/BrokerBridgeList.v load; the
+    fingerprint -> address map (or the failure) is compared, and evaluated against the text itself, line by line."""
+    exe = vlib.go_test_build("./broker", name="broker.test")
+    env = dict(os.environ, VERIF_DRIVER="broker")
+    cases = bridge_file_cases(ctx.rng, ctx.tier)
+    lines = ["broker bload " + (t.encode().hex() or "-") for _, t, _ in cases]
+    tagl = [Tags() for _ in cases]
+    mlines = ["broker bload " + jlines_model(jl, tg) for (_, _, jl), tg in zip(cases, tagl)]
+    rc, out, err = vlib.run_impl(exe, lines, args=["-test.run", "^TestVerifBrokerDriver$"], env=env, timeout=300)
+    if rc != 0 or len(out) != len(lines):
+        ctx.violation("driver-crash", "broker driver died rc=%s: %s" % (rc, err[-800:]), dict(label=label, stderr=err[-3000:]))
+        return
+    mout = vlib.run_model(mlines)
+
+    def parse(o, back=None):
+        if not o.startswith("ok"):
+            return o
+        d = {}
+        body = o[3:]
+        if body and body != "-":
+            for it in body.split(";"):
+                f, u = it.split("=", 1)
+                d[back(f) if back else f] = back(u) if back else u
+        return d
+
+    for (kind, text, jl), line, o, ml, mo, tg in zip(cases, lines, out, mlines, mout, tagl):
+        ctx.count(line, kind=kind)
+        if mo.startswith("!"):
+            raise RuntimeError("model rejected case line: " + ml[:200])
+        want = text_load(text)
+        got = parse(o)
+        mod = parse(mo, tg.back)
+        rep = dict(label=label, case=line, text=text, impl=o, model=mo)
+        if isinstance(got, dict) and want is not None:
+            wrong = sorted(f for f in got if f in want and got[f] != want[f])
+            if wrong:
+                ctx.violation("wrong-relay-url", "bridge list file %r: bridge %s is configured with address %r by its own record, the loader filed %r" % (
+                    text, wrong[0], want[wrong[0]], got[wrong[0]]), rep)
+                continue
+        if (want if want is not None else "err") != got:
+            ctx.violation("bridge-list-load", "bridge list file %r: loader produced %s, the records of the file (each on its own) say %s" % (
+                text, got, want if want is not None else "error, old list kept"), rep)
+        elif mod != got:
+            ctx.not_shown("correspondence %s: model and implementation disagree on %r: model=%s impl=%s" % (label, text, mo, o))
+    sample = [(l, m) for l, m in zip(mlines, mout) if len(l) < 400][:20]
+    for i in vlib.coq_crosscheck(sample):
+        ctx.not_shown("extraction cross-check differs on " + sample[i][0][:300])
+    ctx.extra["vm_compute_crosschecked"] = ctx.extra.get("vm_compute_crosschecked", 0) + len(sample)
+    ctx.extra["bridge_files"] = len(lines)
 
 
 def model_line(sc, labels, tags, version="v1", op="run"):
@@ -348,7 +604,13 @@ def check_history(sc, obs):
         r = obs.get("A%d" % a["k"], "")
         if r == "blocked" or r.startswith("panic"):
             bad.append(("C04", "proxy-answer-" + r.split(":")[0], "proxy answer A%d did not complete: %s" % (a["k"], r)))
-    allr = [obs.get("%s%d" % (e["kind"], e["k"]), "") for e in sc.events if e["kind"] in "PCA"]
+    for h in (e for e in sc.events if e["kind"] == "H"):
+        r = obs.get("H%d" % h["k"], "")
+        if r == "blocked" or r.startswith("panic"):
+            bad.append(("C04", "client-poll-" + r.split(":")[0], "a client poll of the denial stream H%d (clients for whom no proxy waits, sent while other clients' answers arrive) did not complete: %s" % (h["k"], r)))
+        elif r.startswith("other:"):
+            bad.append(("C03", "nat-incompatible-match", "a client of the denial stream H%d (unrestricted, only unrestricted proxies polled) was answered %s" % (h["k"], r[6:])))
+    allr = [obs.get("%s%d" % (e["kind"], e["k"]), "") for e in sc.events if e["kind"] in "PCAH"]
     if all(x and x != "blocked" for x in allr):
         if obs.get("avail") != "0" or obs.get("heapU") != "0" or obs.get("heapR") != "0" or obs.get("gauge") != "0":
             bad.append(("C04", "ghost-registration", "all requests completed but avail=%s heapU=%s heapR=%s gauge=%s" % (
@@ -458,7 +720,7 @@ def herd_labels(sc, obs, tags):
     refused) must be producible by SOME order of the client steps of the model. Removing a poll from a pool never
     disables another client's step, so a greedy order decides this. Returns None (times do not allow the argument),
     ("inadmissible", text), or (labels, names) for the replay in the extracted model."""
-    if any(e["kind"] in "LI" for e in sc.events):
+    if any(e["kind"] in "LIH" for e in sc.events):
         return None
     polls = [e for e in sc.events if e["kind"] == "P"]
     clients = [e for e in sc.events if e["kind"] == "C"]
@@ -489,7 +751,7 @@ def herd_labels(sc, obs, tags):
         return None
     order = sorted(polls, key=lambda e: (tp[e["k"]][1], e["k"]))
     idx = {e["k"]: i for i, e in enumerate(order)}
-    labels = ["P:%d:%s:%d:%d" % (tags(e["sid"]), NATS[e["nat"]], tags(e["ptype"]), e["clients"]) for e in order]
+    labels = ["P:%d:%s:%d:%d" % (tags(e["sid"]), NATS[e["nat"]], tags(e["ptype"]), emb(e["clients"])) for e in order]
     names = {"P%d" % i: "P%d" % e["k"] for i, e in enumerate(order)}
     pool = {e["k"]: e for e in polls}          # still waiting
     todo = list(clients)
@@ -550,7 +812,27 @@ def herd_labels(sc, obs, tags):
 
 # ---------------------------------------------------------------- running
 
-def run_scenarios(ctx, scens, props, label, attempt=0):
+BURST_N, BURST_LIMIT = 2300, 15000
+
+
+def burst_eval(o):
+    """`broker burst`: every one of the idle polls must have been answered 'no match' within ProxyTimeout (10 s) + 5 s"""
+    d = parse_obs(o)
+    try:
+        if int(d["late"]) > 0 or int(d["maxms"]) > BURST_LIMIT:
+            return ("proxy-poll-late", "%s idle proxy polls at the same time: %s were not answered within %d ms (ProxyTimeout is 10 s); latest answer after %s ms" % (
+                d["n"], d["late"], BURST_LIMIT, d["maxms"]))
+        if int(d["other"]) > 0:
+            return ("proxy-poll-err", "%s idle proxy polls at the same time: %s were answered something else than 'no match'" % (d["n"], d["other"]))
+        if (d["avail"], d["heapU"], d["heapR"], d["gauge"]) != ("0", "0", "0", "0"):
+            return ("ghost-registration", "%s idle proxy polls all answered, but avail=%s heapU=%s heapR=%s gauge=%s" % (
+                d["n"], d["avail"], d["heapU"], d["heapR"], d["gauge"]))
+    except (KeyError, ValueError):
+        return ("driver-crash", "burst driver output unreadable: " + o[:200])
+    return None
+
+
+def run_scenarios(ctx, scens, props, label, attempt=0, burst=False):
     """props: set of property ids this check is responsible for (others' findings are ignored here).
     A scenario whose observed history disagrees with the model's prediction is run again on its own (up to two
     more times, far fewer scenarios in flight): the prediction depends on the scheduled instants being kept to
@@ -579,17 +861,37 @@ def run_scenarios(ctx, scens, props, label, attempt=0):
             th = threading.Thread(target=work, daemon=True)
             th.start()
             onep = (th, dh, box)
-    rc, out, err = vlib.run_impl(exe, lines, args=["-test.run", "^TestVerifBrokerDriver$"], env=env, timeout=600)
-    if rc != 0 or len(out) != len(lines):
+    # C04, "any level of concurrency": BURST_N idle proxy polls at once against one broker, beside the scenarios (it
+    # waits for the 10 s poll timers like many of them)
+    bline = "broker burst %d %d" % (BURST_N, BURST_LIMIT)
+    blines = [bline] if burst and attempt == 0 else []
+    rc, out, err = vlib.run_impl(exe, lines + blines, args=["-test.run", "^TestVerifBrokerDriver$"], env=env, timeout=600)
+    if rc != 0 or len(out) != len(lines) + len(blines):
         ctx.violation("driver-crash", "broker driver died rc=%s: %s" % (rc, err[-800:]), dict(label=label, stderr=err[-3000:]))
         if onep is not None:
             onep[0].join()
         return
+    if blines:
+        bo = out.pop()
+        ctx.count(bline, kind="poll-burst")
+        bad = burst_eval(bo)
+        if bad and bad[0] == "proxy-poll-late":
+            # a machine too busy to start the polls in time looks the same: once more, alone
+            vlib.log("%s: poll burst late (%s); running it again on its own" % (label, bo[:120]))
+            rc2, out2, err2 = vlib.run_impl(exe, blines, args=["-test.run", "^TestVerifBrokerDriver$"], env=env, timeout=120)
+            if rc2 == 0 and len(out2) == 1:
+                bo = out2[0]
+                bad = burst_eval(bo)
+        if bad:
+            ctx.violation(bad[0], bad[1], dict(label=label, case=bline, impl=bo))
+        ctx.extra["burst_polls"] = BURST_N
     mlines, minfo = [], []
     for sc, line, o in zip(scens, lines, out):
         obs = parse_obs(o)
         ctx.count(line, kind=sc.kind)
         bad = check_history(sc, obs)
+        if obs.get("H0", "").startswith("denied:"):
+            ctx.extra["denials_during_answers"] = ctx.extra.get("denials_during_answers", 0) + int(obs["H0"].split(":")[1])
         if not sc.herd:
             bad += check_sequential(sc, obs)
         seen = set((p_, k_) for p_, k_, _ in bad)
@@ -685,22 +987,54 @@ def run_scenarios(ctx, scens, props, label, attempt=0):
 # ---------------------------------------------------------------- scenario library
 
 def f1_labels(sc, obs, tags):
-    """poll@0; lock held 9.9s..10.3s; client@9.95s (queued on the lock before the waiter's timeout branch)."""
-    p = [e for e in sc.events if e["kind"] == "P"][0]
-    c = [e for e in sc.events if e["kind"] == "C"][0]
-    labels = ["P:%d:%s:%d:%d" % (tags(p["sid"]), NATS[p["nat"]], tags(p["ptype"]), p["clients"]),
+    """poll@0; lock held 9.9s..10.3s; client@9.95s (queued on the lock before the waiter's timeout branch): the proxy is
+    claimed at its timeout and handed over. Afterwards k further exchanges (poll, client, the poll's own answer) run on
+    the same broker, in the same pool: whatever bookkeeping the hand-over left behind must not make the broker refuse a
+    client while one of these proxies waits."""
+    polls = [e for e in sc.events if e["kind"] == "P"]
+    clients = [e for e in sc.events if e["kind"] == "C"]
+    answers = [e for e in sc.events if e["kind"] == "A"]
+    p, c = polls[0], clients[0]
+    labels = [poll_label(p, tags),
               "FW:0", "WT:0",
               "C:%s:-:%d:0" % (NATS[c["nat"]], tags(c["offer"])),
               "WC:0", "RO:0", "RF:0"]
     names = {"P0": "P0", "C0": "C0"}
-    rel = [e for e in sc.events if e["kind"] == "A"]
+    rel = [e for e in answers if e["after"] == p["k"]]
+    naid = 0
     if rel:
         a = rel[0]
         labels += ["A:%d:%d" % (tags(a["sid"]), tags(a["ans"])), "AP:0", "TA:0", "CC:0"]
         names["A0"] = "A%d" % a["k"]
+        naid = 1
     else:
         labels += ["FC:0", "CT:0", "CC:0"]
+    followup_labels(polls[1:], clients[1:], answers, obs, tags, labels, names, naid)
     return labels, names
+
+
+def followup_labels(polls, clients, answers, obs, tags, labels, names, naid):
+    """labels of the exchanges (poll j, client j, the poll's relative answer) that follow a forced prefix of ONE exchange;
+    what happened (matched or refused, answered or timed out) is read off the observation, the model decides whether it
+    is a run"""
+    for j, (p, c) in enumerate(zip(polls, clients), start=1):
+        labels.append(poll_label(p, tags))
+        names["P%d" % j] = "P%d" % p["k"]
+        names["C%d" % j] = "C%d" % c["k"]
+        matched = obs.get("P%d" % p["k"], "").startswith("match:")
+        labels.append(client_label(c, tags, j if matched else None))
+        if not matched:
+            labels += ["FW:%d" % j, "WT:%d" % j, "WC:%d" % j]
+            continue
+        labels += ["RO:%d" % j, "RF:%d" % j]
+        mine = [a for a in answers if a["after"] == p["k"] and obs.get("A%d" % a["k"]) in ("ok", "fail")]
+        if mine:
+            a = mine[0]
+            labels += ["A:%d:%d" % (tags(a["sid"]), tags(a["ans"])), "AP:%d" % j, "TA:%d" % j, "CC:%d" % j]
+            names["A%d" % naid] = "A%d" % a["k"]
+            naid += 1
+        else:
+            labels += ["FC:%d" % j, "CT:%d" % j, "CC:%d" % j]
 
 
 def reinstall_race_labels(sc, obs, tags):
@@ -714,7 +1048,7 @@ def reinstall_race_labels(sc, obs, tags):
     old = dict(sc.bridge_list())
     r = obs.get("P0", "")
     forced = not (r.startswith("match:") and r.split(":", 3)[3] == old.get(c["fp"]) != dict(ins["bridges"]).get(c["fp"]))
-    lp = "P:%d:%s:%d:%d" % (tags(p["sid"]), NATS[p["nat"]], tags(p["ptype"]), p["clients"])
+    lp = poll_label(p, tags)
     lc = "C:%s:%d:%d:0" % (NATS[c["nat"]], tags(c["fp"]), tags(c["offer"]))
     li = install_label(ins["bridges"], tags)
     labels = [lp, lc, li, "RO:0", "RF:0"] if forced else [lp, lc, "RO:0", "RF:0", li]
@@ -731,7 +1065,7 @@ def reinstall_race_labels(sc, obs, tags):
 
 
 def poll_label(p, tags):
-    return "P:%d:%s:%d:%d" % (tags(p["sid"]), NATS[p["nat"]], tags(p["ptype"]), p["clients"])
+    return "P:%d:%s:%d:%d" % (tags(p["sid"]), NATS[p["nat"]], tags(p["ptype"]), emb(p["clients"]))
 
 
 def client_label(c, tags, choice):
@@ -763,25 +1097,7 @@ def late_answer_labels(sc, obs, tags):
         sc.forced_achieved = True
     else:
         labels += ["FC:0", "CT:0", "CC:0", la]
-    naid = 1
-    for j, (p, c) in enumerate(zip(polls[1:], clients[1:]), start=1):
-        labels.append(poll_label(p, tags))
-        names["P%d" % j] = "P%d" % p["k"]
-        names["C%d" % j] = "C%d" % c["k"]
-        matched = obs.get("P%d" % p["k"], "").startswith("match:")
-        labels.append(client_label(c, tags, j if matched else None))
-        if not matched:
-            labels += ["FW:%d" % j, "WT:%d" % j, "WC:%d" % j]
-            continue
-        labels += ["RO:%d" % j, "RF:%d" % j]
-        mine = [a for a in answers if a["after"] == p["k"] and obs.get("A%d" % a["k"]) in ("ok", "fail")]
-        if mine:
-            a = mine[0]
-            labels += ["A:%d:%d" % (tags(a["sid"]), tags(a["ans"])), "AP:%d" % j, "TA:%d" % j, "CC:%d" % j]
-            names["A%d" % naid] = "A%d" % a["k"]
-            naid += 1
-        else:
-            labels += ["FC:%d" % j, "CT:%d" % j, "CC:%d" % j]
+    followup_labels(polls[1:], clients[1:], answers, obs, tags, labels, names, 1)
     return labels, names
 
 
@@ -997,13 +1313,53 @@ def scenarios(rng, tier):
         sid = fresh("sid"); sc.poll(0, sid, "unrestricted"); sc.client(300, "restricted", "{%s}" % fresh("o"))
         sc.answer(200, sid, fresh("ans"), after_poll=0); sc.answer(600, sid, fresh("ans"), after_poll=0); sc.answer(100, fresh("nosuchsid"), fresh("ans"))
         S.append(sc)
-        # the forced timeout/match race (DESIGN F1): client queued on the lock before the waiter's timeout branch
-        sc = Scen(fresh("race"), "forced-timeout-match-race", watchdog=23000, labels=f1_labels)
+        # the forced timeout/match race (DESIGN F1): client queued on the lock before the waiter's timeout branch; the
+        # history then CONTINUES with further exchanges in the same pool (a proxy waits, an eligible client comes: it must
+        # not be refused - C03_refusal_iff holds in every state, also the ones after a claimed-at-timeout hand-over)
+        sc = Scen(fresh("race"), "forced-timeout-match-race", watchdog=23000, labels=f1_labels, sequenced=True)
         sid = fresh("sid"); sc.poll(0, sid, "unrestricted"); sc.lock(9900, 400); sc.client(9950, "restricted", "{%s}" % fresh("o"))
         sc.answer(150, sid, fresh("ans"), after_poll=0)
+        followups(sc, 11500, 3)
         S.append(sc)
-        sc = Scen(fresh("race"), "forced-timeout-match-race", watchdog=23000, labels=f1_labels)
+        sc = Scen(fresh("race"), "forced-timeout-match-race", watchdog=23000, labels=f1_labels, sequenced=True)
         sid = fresh("sid"); sc.poll(0, sid, "unrestricted"); sc.lock(9900, 400); sc.client(9950, "unknown", "{%s}" % fresh("o"), mode="a")
+        followups(sc, 11500, 2)
+        S.append(sc)
+        # self-reported client counts at the ends of Go's int range and below zero (the wire accepts any int): the order
+        # is the order of the integers, also for two counts more than MaxInt64 apart
+        MAXI, MINI = 2 ** 63 - 1, -2 ** 63
+        EXT = [MINI, -8, -1, 0, 8, MAXI - 7, MAXI]
+        for loads in ([MAXI, -8], [-8, MAXI], [8, MINI], [MAXI - 7, -1, 0], rng.sample(EXT, 3), rng.sample(EXT, 4)):
+            sc = Scen(fresh("extreme"), "least-loaded-extreme-counts")
+            sids = []
+            for j, ld in enumerate(loads):
+                sid = fresh("sid"); sids.append(sid)
+                sc.poll(j * 200, sid, "unrestricted", clients=ld, ptype=rng.choice(["standalone", "webext"]))
+            for j in range(len(loads) - 1):
+                sc.client(1500 + j * 400, rng.choice(["restricted", "unknown", ""]), "{%s}" % fresh("o"), mode=rng.choice(modes))
+            for j, sid in enumerate(sids):
+                sc.answer(200, sid, fresh("ans"), after_poll=j)
+            S.append(sc)
+        # bridge lists installed from FILE TEXT through the real line loader: records without an address (absent, null)
+        # after records with one, reordered members, a fingerprint filed twice, a file that does not load (the old list
+        # stays); clients naming these bridges are matched and the proxies told the address of the bridge's OWN record
+        FA, FB, FC_ = "A1" * 20, "B2" * 20, "c3" * 20
+        UA, UA2, UB = "wss://file-a.example/", "wss://file-a2.example/x", "wss://file-b.example/"
+        D = [("n", "s", "default"), ("a", "s", DEFAULT_URL), ("f", "s", DEFAULT_FP)]
+        f1 = [D, [("n", "s", "a"), ("a", "s", UA), ("f", "s", FA)], [("f", "s", FB), ("n", "s", "b")],
+              [("a", "z", ""), ("f", "s", FC_)]]
+        f2 = [[("f", "s", FB), ("a", "s", UB)], [("f", "s", FA), ("a", "s", UA)], D, [("n", "s", "again"), ("f", "s", FA.lower()), ("a", "s", UA2)],
+              [("f", "s", FC_.upper()), ("n", "z", "")]]
+        f3 = [D, None, [("f", "s", FB), ("a", "s", UA)]]
+        sc = Scen(fresh("bfile"), "bridge-file-install")
+        sc.install_file(0, render_file(rng, f1, {}), f1)
+        one_ = lambda fp_, t, mode="v": (lambda sid: (sc.answer(150, sid, fresh("ans"), after_poll=sc.poll(t, sid, "unrestricted")),
+                                                      sc.client(t + 300, rng.choice(["restricted", "unknown"]), "{%s}" % fresh("o"), fp=fp_, mode=mode)))(fresh("sid"))
+        one_(FB, 400); one_(FA, 1100, "a"); one_(FC_.upper(), 1800)
+        sc.install_file(2500, render_file(rng, f2, {1: " trailing"}), f2)
+        one_(FA, 2900); one_(FC_.upper(), 3600, "a"); one_(FB, 4300)
+        sc.install_file(5000, render_file(rng, f3, {1: ""}), f3)
+        one_(FB, 5400); one_("-", 6100, "l")
         S.append(sc)
         # herds: simultaneous arrivals, prompt answers
         for size in ([6, 16] if tier == "quick" else [6, 16, 48]):
@@ -1046,6 +1402,21 @@ def scenarios(rng, tier):
                 body = fresh("ans") + "z" + "".join(rng.choice("abcdefghijklmnopqrstuvwxy0123456789") for _ in range(rng.choice([0, 1, 7, 40, 300, 1500, 5000])))
                 sc.answer(rng.randrange(0, 200), sid, body, after_poll=j)
             S.append(sc)
+        # denial/answer herd: clients for whom no proxy waits are turned away in a continuous stream (two workers, back to
+        # back) while the answers of the matched clients arrive spread over three seconds: the answer path of one client
+        # overlaps the denial path of another many hundred times; nobody may be left waiting
+        sc = Scen(fresh("denyans"), "denial-answer-herd", herd=True, watchdog=16000)
+        sids = []
+        size = 40 if tier == "quick" else 120
+        for j in range(size):
+            sid = fresh("sid"); sids.append(sid)
+            sc.poll(rng.randrange(0, 30), sid, "unrestricted", clients=rng.randrange(0, 3))
+        for j in range(size):
+            sc.client(300 + rng.randrange(0, 30), rng.choice(["restricted", "unknown", ""]), "{%s}" % fresh("o"), mode=rng.choice(modes))
+        for j, sid in enumerate(sids):
+            sc.answer(rng.randrange(0, 3000), sid, fresh("ans"), after_poll=j)
+        sc.hammer(250, 2, 3600)
+        S.append(sc)
         # timeout-boundary herds: clients arrive around the polls' expiry, answers around the clients' expiry
         for size in ([8] if tier == "quick" else [8, 24]):
             sc = Scen(fresh("edge"), "timeout-boundary-herd", herd=True, watchdog=26000)
@@ -1131,6 +1502,25 @@ def heap_cases(rng, tier):
         ops = [push(rng.randrange(0, 9)) for _ in range(n)]
         ops += ["f:0:%d" % rng.randrange(5, 20), "f:%d:0" % (n - 1), "f:%d:%d" % (n // 2, rng.randrange(0, 9)), "f:%d:3" % n]
         case("heap-fix", ops + ["o"] * (n + 1))
+    # signed client counts at the ends of Go's int range (op heapz): every pair of them, both orders; walks over them
+    MAXI, MINI = 2 ** 63 - 1, -2 ** 63
+    EXT = [MINI, -8, -1, 0, 8, MAXI - 7, MAXI]
+    for a in EXT:
+        for b in EXT:
+            case("heapz-extreme-pair", [push(a, "standalone"), push(b, "webext"), "o", "o", "o"])
+    for _ in range(20 if tier == "quick" else 200):
+        ops, size = [], 0
+        for _j in range(rng.randrange(3, 16)):
+            r = rng.random()
+            if r < 0.55 or size == 0:
+                ops.append(push(rng.choice(EXT))); size += 1
+            elif r < 0.8:
+                ops.append("o"); size -= 1
+            elif r < 0.9:
+                i = rng.randrange(0, size); ops.append("r:%d" % i); size -= 1
+            else:
+                ops.append("f:%d:%d" % (rng.randrange(0, size), rng.choice(EXT)))
+        case("heapz-extreme-walk", ops + ["o"] * (size + 1))
     # random walks with many ties
     reps = 60 if tier == "quick" else 600
     for _ in range(reps):
@@ -1228,7 +1618,7 @@ def run_heap(ctx, label="snowflake-heap"):
     exe = vlib.go_test_build("./broker", name="broker.test")
     os.environ["VERIF_DRIVER"] = "broker"
     cases = heap_cases(ctx.rng, ctx.tier)
-    lines = ["broker heap " + (",".join(ops) if ops else "-") for _, ops in cases]
+    lines = ["broker %s %s" % ("heapz" if k.startswith("heapz") else "heap", ",".join(ops) if ops else "-") for k, ops in cases]
     kinds = [k for k, _ in cases]
     ctx.correspond(exe, lines, kinds=kinds, label=label, prop=heap_prop, key_of=heap_key,
                    impl_args=["-test.run", "^TestVerifBrokerDriver$"])
